@@ -397,10 +397,16 @@ type c11World struct {
 	topics  []string
 	groups  []string
 	members []string
+	joined  []c11Joined // (group, member id, generation) triples handed out by JoinGroup replies
 	seq     int
 	// onlyPartitionZero: the backend cannot be instrumented (proxy leg: broker is a child process), so requests that
 	// are known to make the broker handler spin forever (a partition index the topic does not have) are not sent
 	onlyPartitionZero bool
+}
+
+type c11Joined struct {
+	group, member string
+	generation    int32
 }
 
 // c11Hooks lets a leg observe the server side around each exchange (the broker leg watches the metadata store).
@@ -492,6 +498,29 @@ func (w *c11World) gen(rng *rand.Rand, key, ver int16) kmsg.Request {
 			} else if rng.Intn(4) != 0 {
 				q.Topics[i].TopicID = [16]byte{}
 			}
+		}
+	case *kmsg.SyncGroupRequest:
+		if len(w.joined) > 0 && rng.Intn(2) == 0 {
+			j := w.joined[rng.Intn(len(w.joined))]
+			q.Group, q.MemberID, q.Generation = j.group, j.member, j.generation
+		}
+	case *kmsg.HeartbeatRequest:
+		if len(w.joined) > 0 && rng.Intn(2) == 0 {
+			j := w.joined[rng.Intn(len(w.joined))]
+			q.Group, q.MemberID, q.Generation = j.group, j.member, j.generation
+		}
+	case *kmsg.OffsetCommitRequest:
+		if len(w.joined) > 0 && rng.Intn(2) == 0 {
+			j := w.joined[rng.Intn(len(w.joined))]
+			q.Group, q.MemberID, q.Generation = j.group, j.member, j.generation
+		}
+		if len(q.Topics) == 0 {
+			t := kmsg.NewOffsetCommitRequestTopic()
+			t.Topic = pickTopic()
+			p := kmsg.NewOffsetCommitRequestTopicPartition()
+			p.Offset = int64(rng.Intn(5))
+			t.Partitions = append(t.Partitions, p)
+			q.Topics = append(q.Topics, t)
 		}
 	case *kmsg.JoinGroupRequest:
 		if rng.Intn(2) == 0 {
@@ -599,9 +628,17 @@ func c11Content(resp kmsg.Response) []string {
 }
 
 // learn feeds reply content back into the pool (member ids handed out by JoinGroup).
-func (w *c11World) learn(resp kmsg.Response) {
-	if j, ok := resp.(*kmsg.JoinGroupResponse); ok && j.MemberID != "" && len(w.members) < 12 {
-		w.members = append(w.members, j.MemberID)
+func (w *c11World) learn(req kmsg.Request, resp kmsg.Response) {
+	if j, ok := resp.(*kmsg.JoinGroupResponse); ok && j.MemberID != "" {
+		if len(w.members) < 12 {
+			w.members = append(w.members, j.MemberID)
+		}
+		if q, ok := req.(*kmsg.JoinGroupRequest); ok && j.ErrorCode == 0 {
+			w.joined = append(w.joined, c11Joined{q.Group, j.MemberID, j.Generation})
+			if len(w.joined) > 16 {
+				w.joined = w.joined[len(w.joined)-16:]
+			}
+		}
 	}
 }
 
@@ -748,7 +785,7 @@ func c11RunMatrix(r *verifkit.Run, m c11Matrix) {
 		}
 		resp := c11Judge(r, cs, ex)
 		if resp != nil {
-			world.learn(resp)
+			world.learn(req, resp)
 			for _, c := range c11Content(resp) {
 				r.Count("content_"+c, 1)
 			}
